@@ -24,6 +24,16 @@ ONLY_F = frozenset([F])
 FRESH = ravm.ATTACKER
 
 
+class _NonZero:
+    """some non-zero integer whose exact value is not fixed: only comparisons with 0 are definite"""
+
+    def __repr__(self):
+        return "NONZERO"
+
+
+NONZERO = _NonZero()
+
+
 def const_value(o) -> Any:
     if o[0] == "int":
         return o[1]
@@ -52,6 +62,21 @@ def _cmp(op: str, a, b) -> bool:
     return {"==": a == b, "!=": a != b, "<": a < b, "<=": a <= b, ">": a > b, ">=": a >= b}[op]
 
 
+def _cmp3(op: str, a, b) -> frozenset:
+    """comparison where one side may be NONZERO"""
+    if a is NONZERO and b is NONZERO:
+        return BOTH
+    if a is NONZERO:
+        if b != 0:
+            return BOTH
+        return ONLY_T if _cmp(op, 1, 0) else ONLY_F
+    if b is NONZERO:
+        if a != 0:
+            return BOTH
+        return ONLY_T if _cmp(op, 0, 1) else ONLY_F
+    return ONLY_T if _cmp(op, a, b) else ONLY_F
+
+
 def eval3(c, val: Dict[str, Any]) -> frozenset:
     k = c[0]
     if k == "true":
@@ -63,15 +88,15 @@ def eval3(c, val: Dict[str, Any]) -> frozenset:
     if k == "truthy":
         f = governed_read(c[1])
         if f is not None and f in val:
-            return ONLY_T if val[f] != 0 else ONLY_F
+            return ONLY_T if (val[f] is NONZERO or val[f] != 0) else ONLY_F
         return BOTH
     if k == "cmp":
         a, b = c[2], c[3]
         fa, fb = governed_read(a), governed_read(b)
         if fa is not None and fa in val and b[0] != "read":
-            return ONLY_T if _cmp(c[1], val[fa], const_value(b)) else ONLY_F
+            return _cmp3(c[1], val[fa], const_value(b))
         if fb is not None and fb in val and a[0] != "read":
-            return ONLY_T if _cmp(c[1], const_value(a), val[fb]) else ONLY_F
+            return _cmp3(c[1], const_value(a), val[fb])
         return BOTH
     if k == "not":
         return frozenset(not x for x in eval3(c[1], val))
